@@ -114,6 +114,123 @@ theorem c19_serializer_step (depth : Nat) (order : List Nat) (s : SState) (i : S
         · intro h; simp at h
         · rintro ⟨rfl, h1, h2, _⟩; exact absurd h1 (hc h2)
 
+-- OBLIGATION c19_two_callers : two transactions calling the same (exclusive) method: per method and cycle at most one caller is granted (the result names one caller or none), the granted caller did request, and the component sees exactly its request; Serializer: the granted request slot attempted with the forwarded argument and belongs to the port that executes, the granted response slot attempted and belongs to the oldest pending client
+theorem c19_two_callers :
+    (∀ (pr : Bool × Bool × Bool) (s : ZState) (a b : ZIn),
+      let r := zStepTwin pr s a b
+      (r.2.2.wa = 1 → r.2.1.wa.isSome ∧ r.2.1.wa = a.wa) ∧ (r.2.2.wa = 2 → r.2.1.wa.isSome ∧ r.2.1.wa = b.wa) ∧
+      (r.2.2.wr = 1 → r.2.1.wr.isSome ∧ r.2.1.wr = a.wr) ∧ (r.2.2.wr = 2 → r.2.1.wr.isSome ∧ r.2.1.wr = b.wr) ∧
+      (r.2.2.rd = 1 → r.2.1.rd.isSome ∧ a.rd = true) ∧ (r.2.2.rd = 2 → r.2.1.rd.isSome ∧ b.rd = true) ∧
+      r.2.2.wa ≤ 2 ∧ r.2.2.wr ≤ 2 ∧ r.2.2.rd ≤ 2) ∧
+    (∀ (n depth : Nat) (order oorder : List Nat) (s : SState) (i : SIn),
+      let r := sStepTwin n depth order oorder s i
+      (∀ sl, r.2.2.1 = some sl →
+        sl ∈ order ∧ ∃ a, i.ins[sl]? = some (some a) ∧ r.2.1.inDone = some (sl % n, a) ∧ r.2.1.reqCall = some a) ∧
+      (∀ sl, r.2.2.2 = some sl →
+        sl ∈ oorder ∧ i.outs[sl]? = some true ∧ s.q.head? = some (sl % n) ∧
+        r.2.1.outDone = some (sl % n, i.respData))) := by
+  constructor
+  · intro pr s a b
+    simp only [zStepTwin]
+    have hwa := arb2_spec pr.1 a.wa b.wa
+    have hwr := arb2_spec pr.2.1 a.wr b.wr
+    have hrd := arb2_spec pr.2.2 (boolOpt a.rd) (boolOpt b.rd)
+    generalize arb2 pr.1 a.wa b.wa = xa at hwa ⊢
+    generalize arb2 pr.2.1 a.wr b.wr = xr at hwr ⊢
+    generalize arb2 pr.2.2 (boolOpt a.rd) (boolOpt b.rd) = xd at hrd ⊢
+    have hex := zStep_exec s { wa := xa.1, wr := xr.1, rd := xd.1.isSome, pk := a.pk }
+    generalize zStep s { wa := xa.1, wr := xr.1, rd := xd.1.isSome, pk := a.pk } = r at hex ⊢
+    simp only at hex
+    have hb : ∀ (x : Bool), boolOpt x = none ∨ (x = true) := by intro x; cases x <;> simp [boolOpt]
+    refine ⟨?_, ?_, ?_, ?_, ?_, ?_, ?_, ?_, ?_⟩
+    · intro h
+      obtain ⟨h1, h2⟩ := ite_who h (by omega)
+      exact ⟨h1, by rw [hex.1 h1, hwa.2.1 h2]⟩
+    · intro h
+      obtain ⟨h1, h2⟩ := ite_who h (by omega)
+      exact ⟨h1, by rw [hex.1 h1, hwa.2.2.1 h2]⟩
+    · intro h
+      obtain ⟨h1, h2⟩ := ite_who h (by omega)
+      exact ⟨h1, by rw [hex.2.1 h1, hwr.2.1 h2]⟩
+    · intro h
+      obtain ⟨h1, h2⟩ := ite_who h (by omega)
+      exact ⟨h1, by rw [hex.2.1 h1, hwr.2.2.1 h2]⟩
+    · intro h
+      obtain ⟨h1, h2⟩ := ite_who h (by omega)
+      refine ⟨h1, ?_⟩
+      have h3 := hex.2.2 h1
+      rw [hrd.2.1 h2] at h3
+      rcases hb a.rd with h4 | h4
+      · simp [h4] at h3
+      · exact h4
+    · intro h
+      obtain ⟨h1, h2⟩ := ite_who h (by omega)
+      refine ⟨h1, ?_⟩
+      have h3 := hex.2.2 h1
+      rw [hrd.2.2.1 h2] at h3
+      rcases hb b.rd with h4 | h4
+      · simp [h4] at h3
+      · exact h4
+    · split <;> rcases hwa.1 with h | h <;> omega
+    · split <;> rcases hwr.1 with h | h <;> omega
+    · split <;> rcases hrd.1 with h | h <;> omega
+  · intro n depth order oorder s i
+    constructor
+    · intro sl h
+      simp only [sStepTwin] at h ⊢
+      split at h
+      · rename_i hdone
+        cases hw : pickIn i.ins order with
+        | none => simp [hw] at h
+        | some sa =>
+          obtain ⟨sl', a⟩ := sa
+          simp only [hw, Option.map_some, Option.some.injEq] at h
+          subst h
+          have hp := pickIn_some _ _ _ _ hw
+          refine ⟨hp.1, a, hp.2, ?_⟩
+          simp only [hw] at hdone ⊢
+          simp only [sStep] at hdone ⊢
+          split at hdone
+          · rename_i hc
+            simp only [hc, if_true]
+            cases hq : pickIn ((List.range n).map fun p => if sl' % n = p then some a else none) (List.range n) with
+            | none => simp [hq] at hdone
+            | some pa =>
+              obtain ⟨p, a'⟩ := pa
+              have h2 := (pickIn_some _ _ _ _ hq).2
+              simp only [List.getElem?_map] at h2
+              cases hr : (List.range n)[p]? with
+              | none => simp [hr] at h2
+              | some p' =>
+                have hpp : p' = p := by
+                  rw [List.getElem?_eq_some_iff] at hr
+                  obtain ⟨hlt, he⟩ := hr
+                  simpa using he.symm
+                subst hpp
+                simp only [hr, Option.map_some, Option.some.injEq] at h2
+                split at h2
+                · rename_i he
+                  simp only [Option.some.injEq] at h2
+                  subst h2
+                  simp [he]
+                · simp at h2
+          · simp at hdone
+      · simp at h
+    · intro sl h
+      simp only [sStepTwin] at h ⊢
+      generalize hgen : sStep depth (List.range n) s _ = r at h ⊢
+      cases hod : r.2.outDone with
+      | none => simp [hod] at h
+      | some pd =>
+        obtain ⟨p, d⟩ := pd
+        simp only [hod, Option.bind_some] at h
+        have hf := firstSlot_some _ _ _ _ _ h
+        have hod' := hod
+        rw [← hgen] at hod'
+        obtain ⟨hq, _, _, hd⟩ := ((c19_serializer_step _ _ _ _).2.2 p d).1 hod'
+        refine ⟨hf.1, hf.2.2, by rw [hf.2.1]; exact hq, ?_⟩
+        rw [hf.2.1, hd]
+
 -- OBLIGATION c19_zipper : the k-th executed read returns the k-th written argument paired with the k-th written result (every history from reset)
 theorem c19_zipper (is : List ZIn) (k a r : Nat) (h : (zReads (zRun zInit is).2)[k]? = some (a, r)) :
     (zArgsW (zRun zInit is).2)[k]? = some a ∧ (zResW (zRun zInit is).2)[k]? = some r := by
@@ -166,5 +283,6 @@ end TxV.ReqRes
 #print axioms TxV.ReqRes.c19_serializer_clients
 #print axioms TxV.ReqRes.c19_serializer_bound
 #print axioms TxV.ReqRes.c19_serializer_step
+#print axioms TxV.ReqRes.c19_two_callers
 #print axioms TxV.ReqRes.c19_zipper
 #print axioms TxV.ReqRes.c19_zipper_nodrop
